@@ -24,6 +24,7 @@ From Coq Require Import List Arith Bool.
 Require Import MTX.Model.C40_Rendezvous MTX.Proofs.C40_Rendezvous MTX.Proofs.C40_Refuted MTX.Check.C40 MTX.Proofs.C40_Check.
 Require Import MTX.Model.C40_CoreLoop MTX.Proofs.C40_CoreLoop MTX.Proofs.C40_CoreCheck.
 Require MTX.Model.C40_StreamLock MTX.Proofs.C40_StreamLock MTX.Proofs.C40_StreamCheck.
+Require MTX.Model.C40_HlsLoop MTX.Proofs.C40_HlsLoop MTX.Proofs.C40_HlsCheck.
 Import ListNotations.
 
 (* progress: in every reachable state either nobody is inside an operation (quiescent), or some step other than an
@@ -343,3 +344,67 @@ Proof.
   inversion E; subst s; clear E. split; [|repeat split].
   intros pr Hin. left. simpl in Hin. repeat (destruct Hin as [<-|Hin]; [reflexivity|]). contradiction.
 Qed.
+
+(* ==== HLS level (Model/C40_HlsLoop.v, module HL): who waits for whom between pathManager.run (idle / in a handler / in
+   doSetPathReady-NotReady calling the HLS server), the path loops (idle / in pm.setPathReady-NotReady), hls.Server.run
+   (idle / in createMuxer / at the muxers' mutexes for an API listing or kick / in path.RemoveReader for a kick) and
+   the HLS muxers (mutex held across pathManager.AddReader and the path's answer; mutex held across session.close2 ->
+   path.RemoveReader).  Any number of paths, muxers, callers; all interleavings.  `true` = hls.Server.PathReady /
+   PathNotReady queue the event and return (fix 029c0b4); `false` = the pinned code (unbuffered send to
+   hls.Server.run).  The first model (C40_Rendezvous) ASSUMED that these two calls return; this model is where that
+   assumption is discharged for the repaired code and refuted for the pinned one. ==== *)
+
+(* progress holds in EVERY state of the repaired code (no invariant needed): quiescent, or one of the loops can move;
+   every schedule is finite; whatever the scheduler does, when nothing can move the state is quiescent; it is reached *)
+Theorem C40_hls_every_operation_completes : forall s,
+  (HL.quiescentb s = true \/ exists l s', HL.internal l = true /\ HL.step true s l = Some s')
+  /\ ((forall l, HL.internal l = true -> HL.step true s l = None) -> HL.quiescentb s = true)
+  /\ (exists ls s', forallb HL.internal ls = true /\ HL.run true s ls = Some s' /\ HL.quiescentb s' = true
+                    /\ length ls <= HL.measure s).
+Proof.
+  intros s. split; [exact (C40_HlsLoop.progress s)|]. split; [exact (C40_HlsLoop.stuck_quiescent s)|].
+  exact (C40_HlsLoop.completes s).
+Qed.
+Print Assumptions C40_hls_every_operation_completes.
+
+Theorem C40_hls_every_schedule_finite : forall q ls s s',
+  forallb HL.internal ls = true -> HL.run q s ls = Some s' -> length ls + HL.measure s' <= HL.measure s.
+Proof. intros q ls s s'. apply C40_HlsLoop.internal_run_bounded. Qed.
+Print Assumptions C40_hls_every_schedule_finite.
+
+(* the pinned code: three reachable states in which no loop can move and that are not quiescent.
+   A1 (reported from a hung run, reproduced 4 of 4 by the forced schedule of zz_verif_c40hls_test.go on the pinned
+   code): pathManager.run in PathNotReady, hls.Server.run at the mutex of a muxer that is inside pathManager.AddReader.
+   A2: the muxer holds its mutex inside path.RemoveReader of a path whose loop waits for pathManager.run.
+   A3: no mutex: hls.Server.run serves a kick inside path.RemoveReader of such a path. *)
+Theorem C40_hls_no_deadlock_refuted :
+  (HL.reachable false C40_HlsLoop.stuck_a1 /\ HL.quiescentb C40_HlsLoop.stuck_a1 = false
+   /\ forall l, HL.internal l = true -> HL.step false C40_HlsLoop.stuck_a1 l = None)
+  /\ (HL.reachable false C40_HlsLoop.stuck_a2 /\ HL.quiescentb C40_HlsLoop.stuck_a2 = false
+      /\ forall l, HL.internal l = true -> HL.step false C40_HlsLoop.stuck_a2 l = None)
+  /\ (HL.reachable false C40_HlsLoop.stuck_a3 /\ HL.quiescentb C40_HlsLoop.stuck_a3 = false
+      /\ forall l, HL.internal l = true -> HL.step false C40_HlsLoop.stuck_a3 l = None).
+Proof.
+  split; [|split].
+  - split; [exact C40_HlsLoop.a1_reachable|split; [reflexivity|exact C40_HlsLoop.a1_no_step]].
+  - split; [exact C40_HlsLoop.a2_reachable|split; [reflexivity|exact C40_HlsLoop.a2_no_step]].
+  - split; [exact C40_HlsLoop.a3_reachable|split; [reflexivity|exact C40_HlsLoop.a3_no_step]].
+Qed.
+Print Assumptions C40_hls_no_deadlock_refuted.
+
+Theorem C40_hls_check_settled_sound : forall s fr l s',
+  hsettled s fr = true -> HL.internal l = true -> HL.step true s l = Some s' ->
+  exists q, In q (hinvolves l) /\ existsb (hfroz_eqb q) fr = true.
+Proof. exact C40_HlsCheck.hsettled_sound. Qed.
+Print Assumptions C40_hls_check_settled_sound.
+
+(* non-vacuity: the witness schedule of A1 with the queue: pathManager.run gets back to its select, the muxer is served,
+   the listing is answered, everything is quiescent *)
+Example C40_hls_example_queue :
+  HL.run false HL.init C40_HlsLoop.trace_a1 = Some C40_HlsLoop.stuck_a1
+  /\ match HL.run true HL.init C40_HlsLoop.trace_a1_queued with
+     | Some s => HL.quiescentb s = true /\ HL.mxs s = [HL.MxUp 0]
+     | None => False
+     end.
+Proof. split; [exact C40_HlsLoop.a1_run|exact C40_HlsLoop.a1_with_queue]. Qed.
+
